@@ -1292,7 +1292,7 @@ theorem bucketParams_good {lens : List Nat} {nb B : Nat} {dynamic : Bool} {p : B
   have hlen : lens.length ≠ 0 := by
     intro h0; exact hN (List.length_eq_zero_iff.1 h0)
   by_cases hnb : nb = 0
-  · simp [hnb] at h
+  · simp [hnb, hN] at h
   simp only [hnb, if_false, hlen] at h
   -- the maximum
   have hs := isort_sorted lens
